@@ -1,8 +1,10 @@
 // C14 iovector: every operation equals its effect on the flat byte sequence.
 //
-// Bounded-exhaustive enumeration (seqx).  One source, two targets (see targets.json):
-//   -DC14_PART=1  "single": every single operation of the FULL alphabet on a fresh object
-//   -DC14_PART=2  "seq"   : every sequence of 2 (quick) / 2 and 3 (thorough) operations on a fresh object
+// Bounded-exhaustive enumeration (seqx).  One source, three targets (see targets.json):
+//   -DC14_PART=1  "single"  : every single operation of the FULL alphabet on a fresh object (all shapes of 0..4 elements)
+//   -DC14_PART=2  "seq"     : every sequence of 2 (quick) / 2 and 3 (thorough) operations on a fresh object; the model is
+//                             compared after every operation; all but the last operation are mutating ones
+//   -DC14_PART=3  "nullview": the default-constructed empty view (iov == nullptr) as subject / as the other vector
 //
 // Objects under test ("subject"):
 //   V  an iovector_view over a heap descriptor array
@@ -31,6 +33,7 @@
 //     ELEMENT"), allowed exactly when that element is shorter than n.  For n == 0 the pointer value is meaningless.
 //   * IOVector::slice(0,..) / IOVector::extract_front/back(0, view*) return 0 BEFORE touching *out (the view versions
 //     set out->iovcnt = 0): the out view is not treated as an output when the wrapper returns 0 for a zero request.
+//   * shrink_to/extract/pipe may leave or drop zero-length elements as they like: only the concatenation is compared.
 //   * extract_back(n, buf) with n > total puts the bytes at buf + (n - ret), i.e. right-aligned in the n-byte window
 //     (upstream's own unit test expects exactly that).  The oracle accepts the bytes at buf[0..ret) or buf[n-ret..n).
 //   * push_front/push_back on an IOVector whose descriptor array is exhausted return 0.
@@ -38,6 +41,13 @@
 // shrink_less_than(size) is structure dependent; its contract is taken from its only caller (fs/throttled-file.cpp):
 // keep the shortest element prefix whose sum is >= size, do not modify iov[], return (sum of the kept prefix - size);
 // size > total: unchanged, 0.
+//
+// Findings on the unchanged tree (each has its own signature so it can be triaged separately):
+//   shrink_less_than:zero-size-return  shrink_less_than(0) empties the view but returns iov[0].iov_len (excess of the kept part over size is 0)
+//   slice:spurious-failure             IOVector::slice(count>0, off, &empty_out) on an EMPTY IOVector returns -1 (sizes the out array by
+//                                      iovcnt() == 0, then the view-level slice refuses the room-0 array); any non-empty IOVector returns 0 beyond its end
+//   empty-null-view:segv (nullview)    memcpy_to/from(buf|view) and pipe_to(view) with a default-constructed empty view on either side:
+//                                      iov_iterator's constructor reads view.iov[0] unconditionally -> nullptr dereference
 //
 // Case descriptor: "<V|I> shape=[l0,l1,..] | op | op | op" - enough to rebuild the case by hand.  In partner operations
 // "view[..]" / "iovector[..]" is the shape of the other vector (own blocks, bytes 'a'+pos for the 1st op of the
@@ -589,13 +599,13 @@ static void run_case(seqx::Ctx& c, bool vec, const Shape& s, const Op* const* op
         iovec* arr = s.null ? nullptr : (iovec*)A.get((s.n + 1) * sizeof(iovec));        // one spare, poisoned descriptor slot (see header comment)
         if (!s.null) { build_blocks(A, s, 'A', arr, M); arr[s.n] = POISON; }
         iovector_view v(arr, s.n);
-        for (int k = 0; k < nops; k++) { e.step = k; if (!apply(e, v, M, *ops[k], rel)) { cls = seqx::mix(cls, 0xbad); break; } cls = seqx::mix(cls, k == nops - 1 ? rel : (uint64_t)KGROUP[ops[k]->kind]); }
+        for (int k = 0; k < nops; k++) { e.step = k; if (!apply(e, v, M, *ops[k], rel)) { cls = seqx::mix(cls, 0xbad); break; } if (k >= nops - 2) cls = seqx::mix(cls, k == nops - 1 ? rel : (uint64_t)KGROUP[ops[k]->kind]); }
     } else {
         IOVector* v = A.newvec();
         build_blocks(A, s, 'A', tmp, M);
         for (int i = 0; i < s.n; i++) v->push_back(tmp[i].iov_base, tmp[i].iov_len);
         iovector& o = *v;
-        for (int k = 0; k < nops; k++) { e.step = k; if (!apply(e, o, M, *ops[k], rel)) { cls = seqx::mix(cls, 0xbad); break; } cls = seqx::mix(cls, k == nops - 1 ? rel : (uint64_t)KGROUP[ops[k]->kind]); }
+        for (int k = 0; k < nops; k++) { e.step = k; if (!apply(e, o, M, *ops[k], rel)) { cls = seqx::mix(cls, 0xbad); break; } if (k >= nops - 2) cls = seqx::mix(cls, k == nops - 1 ? rel : (uint64_t)KGROUP[ops[k]->kind]); }
     }
     g_guard_armed = 0;
     c.cls(cls);
@@ -697,5 +707,5 @@ SEQX_MAIN("C14", "single", "every single operation of iovector_view (V) and IOVe
 #elif C14_PART == 3
 SEQX_MAIN("C14", "nullview", "the default-constructed empty iovector_view (iov == nullptr, iovcnt == 0) as the subject of every single operation (counts 0..2, room {0,1}, other vectors {[],[1],[0,2],null}, sizes {0,1,2,3,SIZE_MAX}) and as the other vector of memcpy_to/from and pipe_to/from on V and I subjects of shapes {[],[1],[0,2]}; reference = the empty byte string; distinct = (object kind, op kind, relation class, crashed or not)")
 #else
-SEQX_MAIN("C14", "seq", "every sequence of 2 operations (first one mutating) on V and I: quick = shapes of 0..2 elements (sizes {0,1,2,3}) and of 3 elements (sizes {0,1,2}) with alphabet A; thorough = 0..3 elements with A and 4 elements with B, element sizes {0,1,2,3}; A: counts/offsets 0..total+2, out-view room {1,2,5}, slice room {1,5}, other-vector shapes {[],[0],[1],[3],[1,2],[2,0,1],[0,1,0,3]}, sizes 0..max(total,other)+1 and SIZE_MAX; B: room {1,5}, slice room {5}, other-vector shapes {[],[1],[1,2],[0,1,0,3]}; thorough adds every sequence of 3 operations (first two mutating) over shapes of 0..3 elements with sizes {0,1,2}: counts 0..total+1, room {2}, slice counts {1,2,total+1} room 5, other-vector shapes {[],[1,0,2]}, sizes {0,1,3,SIZE_MAX}; the model is compared after every operation; distinct = (object kind, family of the earlier ops, full relation class of the last op as in target single)")
+SEQX_MAIN("C14", "seq", "every sequence of 2 operations (first one mutating) on V and I: quick = shapes of 0..2 elements (sizes {0,1,2,3}) and of 3 elements (sizes {0,1,2}) with alphabet A; thorough = 0..3 elements with A and 4 elements with B, element sizes {0,1,2,3}; A: counts/offsets 0..total+2, out-view room {1,2,5}, slice room {1,5}, other-vector shapes {[],[0],[1],[3],[1,2],[2,0,1],[0,1,0,3]}, sizes 0..max(total,other)+1 and SIZE_MAX; B: room {1,5}, slice room {5}, other-vector shapes {[],[1],[1,2],[0,1,0,3]}; thorough adds every sequence of 3 operations (first two mutating) over shapes of 0..3 elements with sizes {0,1,2}: counts 0..total+1, room {2}, slice counts {1,2,total+1} room 5, other-vector shapes {[],[1,0,2]}, sizes {0,1,3,SIZE_MAX}; the model is compared after every operation; distinct = (object kind, sequence length, family of the op before the last, full relation class of the last op as in target single)")
 #endif
